@@ -58,18 +58,31 @@ def run(chk):
     # ------------------------------------------------------------------ R-TOPDOWN
     its = [(bi, t) for bi, t in b.calls() if (t["callee"].get("resolved") or "").endswith("IntoIterator>::into_iter") and bi not in loop]
     ok = False
+    over_layers = False
     it_expr = None
     if its:
         it_expr = eb.operand(its[-1][1]["args"][0])
         e = it_expr
+        over_layers = False
         if e[0] == "call" and e[1] == "std::iter::Iterator::rev" and e[2][0][0] == "agg" and e[2][0][1].startswith("adt:std::ops::Range::"):
             lo, hi = e[2][0][2]
             hi_s = strip(hi[1]) if hi[0] == "len" else None
             ok = lo == ("const", 0) and hi[0] == "len" and hi_s is not None and hi_s[0] == "field" and hi_s[2] == "layers"
+        elif e[0] == "call" and e[1] == "std::iter::Iterator::rev":
+            # `self.layers.iter().rev()` / `.iter().enumerate().rev()`: the elements themselves, last to first
+            x = e[2][0]
+            if x[0] == "call" and x[1] == "std::iter::Iterator::enumerate":
+                x = x[2][0]
+            if x[0] == "call" and x[1].split("::")[-1] in ("iter", "iter_mut"):
+                y = strip(x[2][0])
+                while y[0] == "call" and y[1].split("::")[-1] in ("deref", "deref_mut", "as_slice"):
+                    y = strip(y[2][0])
+                ok = y[0] == "field" and y[2] == "layers"
+                over_layers = ok
     chk.obligation(ok)
     if not ok:
         chk.finding(key + "|walk-order", rule="R-TOPDOWN", where="%s:%s" % (b.file, b.line), fn=key,
-                    what="the layer walk is not `(0..self.layers.len()).rev()`: %s" % (show(it_expr)[:100] if it_expr else "no iterator"))
+                    what="the layer walk is neither `(0..self.layers.len()).rev()` nor `self.layers.iter()[.enumerate()].rev()`: %s" % (show(it_expr)[:100] if it_expr else "no iterator"))
     nexts = [(bi, t) for bi, t in b.calls() if bi in loop and (t["callee"].get("resolved") or "").endswith("as std::iter::Iterator>::next")]
     ok = len(nexts) == 1 and "Rev<" in (nexts[0][1]["callee"].get("resolved") or "")
     chk.obligation(ok)
@@ -82,7 +95,7 @@ def run(chk):
     for bi, t in gcs:
         recv = strip(eb.operand(t["args"][0]))
         rs = show(recv)
-        is_layer_elem = "layers" in rs and ("index(" in rs or "[" in rs)
+        is_layer_elem = ("layers" in rs and ("index(" in rs or "[" in rs)) or (over_layers and "next(" in rs)
         layer_calls.append((bi, t, recv, is_layer_elem))
     chk.anchor(sum(1 for x in layer_calls if x[3]) >= 1, "R-VIS", "a Layer::get_char call on an element of self.layers")
     for bi, t, recv, is_elem in layer_calls:
